@@ -1012,6 +1012,11 @@ def check(pid, argv=None):
     ]
     if run.replay:
         rp = json.load(open(run.replay))["replay"]
+        if rp.get("engine") == "kernelredecl":
+            from . import kernelredecl
+            kernelredecl.replay_one(run, rp)
+            run.cov["traces_validated_against_impl"] = 1
+            run.finish()
         if rp["mode"] == "gen":
             results = run_workers(run, [dict(omp=rp["omp"], seed=run.seed, shard=0, nshards=1, single=[rp])])
             merge_results(run, results)
@@ -1044,6 +1049,10 @@ def check(pid, argv=None):
     run.notes["t_validate"] = round(time.time() - t1, 1)
     n = report_trace_verdicts(run, traces, verdicts, run.seed)
     run.notes["code_to_spec"] = dict(n)
+    t1 = time.time()
+    from . import kernelredecl
+    kernelredecl.run_all(run)          # which declaration a call uses (spec/XoKernelRedecl.tla)
+    run.notes["t_redeclared"] = round(time.time() - t1, 1)
     run.cov["traces_validated_against_impl"] += n["calls"]
     run.cov["exhaustive"] = False
     run.finish()
